@@ -122,6 +122,18 @@ CLAIMS = {
         "text": "Decides: PublicKey values come only from successfully parsed/derived ed25519 keys (constructor inventory + success-edge), verify is strict, CustomAddrBytes' Inline arm is built only under len <= N (N from the field type) so accessors cannot index out of range, and every panic-capable operation in iroh-base's parsers/accessors is in a reviewed inventory with its discharge reason. Round-trip equality across encodings is NOT decided.",
         "technique": "constructor-site inventory, constructor-established invariant, targeted panic inventory over resolved callees (index/expect/copy_from_slice)",
     },
+    "C18": {
+        "text": "Decides: AddrMap::get performs lookup, generate-until-unused and both inserts under one continuously held guard on the struct that holds both maps; get is the only writer, nothing is ever removed, forward and reverse insert carry the same pair; per mapped type generate()/try_from agree on prefix constants, subnets are distinct, newtypes only built there; classification tries all mapped kinds first. Randomness quality is not decided.",
+        "technique": "static lockset (single guard spans all map operations), who-writes over HashMap mutators, copy-chain provenance, const-table agreement",
+    },
+    "C40": {
+        "text": "Decides: run loop spawns a handler task only on IncomingFilterOutcome::Accept (outcome->action table for the others); handle_connection invokes exactly the map entry for the connection's negotiated ALPN, nothing without an entry, accept() gets on_accepting's connection; set_alpns receives the map's keys. ALPN negotiation in noq/rustls is not decided.",
+        "technique": "match-arm regions + reachability cut at the loop head, copy-chain provenance of the handler and connection values, success-edge dominance",
+    },
+    "C42": {
+        "text": "Decides: noq connect_with requires before_connect Accept, id != self, non-empty ALPN (closed endpoint refuses first); HandshakeCompletedData is assembled only in conn_from_noq_conn whose future yields Ok only on after_handshake Accept and closes+errs on Reject; hook lists return Accept only after exhaustion and Reject immediately. What hooks decide is not decided.",
+        "technique": "success-edge dominance on enum-valued outcomes through awaits, constructor-site inventory, iterator-exhaustion edges",
+    },
 }
 
 _PENDING = "rules for this property are not implemented yet in this revision (see DESIGN.md §4 for the planned structural clauses)"
